@@ -55,8 +55,8 @@ Proof.
     unfold run_defers. rewrite trun_emits_only. cbn. rewrite app_nil_r. reflexivity.
   - destruct (not_defer_dec h) as [[c ->]|Hnd].
     + rewrite compile_list_defer in Hc. rewrite hexec_list_defer.
-      specialize (IH fuel sid st (pend ++ [c]) code defers ne o Hc).
-      rewrite rev_app_distr in IH. exact IH.
+      specialize (IH fuel sid st (pend ++ rev c) code defers ne o Hc).
+      rewrite rev_app_distr, rev_involutive in IH. exact IH.
     + rewrite compile_list_cons in Hc by assumption.
       rewrite hexec_list_cons by assumption.
       destruct (compile_stmt_fx (mkFrame sid pend :: st) h) as [c| |] eqn:Ec; cbn [bind] in Hc; try discriminate.
@@ -100,10 +100,11 @@ Proof.
     rewrite unwind_incl_tr, trun_emits. cbn. rewrite app_nil_r. reflexivity.
   - destruct l; cbn in Hc; inversion Hc; subst.
     rewrite unwind_incl_tr, trun_emits. cbn. rewrite app_nil_r. reflexivity.
-  - destruct l; cbn in Hc; inversion Hc; subst.
-    rewrite trun_list_single. cbn [trun hexec]. destruct (next o) as [c0 o0].
-    destruct c0; cbn; auto.
-    rewrite unwind_incl_tr, trun_emits. cbn. rewrite app_nil_r. reflexivity.
+  - destruct l; [|cbn in Hc; discriminate].
+    destruct k; cbn in Hc; inversion Hc; subst;
+    (rewrite trun_list_single; cbn [trun hexec]; destruct (next o) as [c0 o0];
+     destruct c0; cbn; auto;
+     rewrite unwind_incl_tr, trun_emits; cbn; rewrite app_nil_r; reflexivity).
   - (* block *)
     cbn [compile_stmt_fx] in Hc.
     destruct (compile_list _ sid st [] b) as [[[cd df] ne]| |] eqn:Ec; cbn [bind] in Hc; try discriminate.
